@@ -392,9 +392,15 @@ Proof.
     split; [exact Hnd|]. apply put_chain_forall; [exact Hc'|].
     intros x Hx Hne. eapply chain_inv_frame; [exact Hidin | rewrite <- Eid; exact Hne | exact Hfr | apply Hall; exact Hx]. }
   destruct o as [cid s | cid self ext ts finalized sanity | cid self ext ts strict sanity]; cbn [honest] in Hh.
-  - unfold add_snapshot in Hs.
-    destruct (validate_snapshot sort_ts (c_number (ch_cache c)) (c_snaps (ch_cache c)) s true) as [l r].
-    inversion Hs; subst w' k. apply Hfin; [reflexivity | apply chain_inv_set_snaps; exact Hc | apply dur_frame_refl].
+  - assert (Hadd : forall c' r, add_snapshot sort_ts c s = (c', r) -> c' = c \/ exists l, c' = set_snaps c l).
+    { intros c' r Ha. unfold add_snapshot in Ha.
+      destruct (validate_snapshot sort_ts (c_number (ch_cache c)) (c_snaps (ch_cache c)) s false) as [l1 r1].
+      destruct r1 as [[]| |]; try (inversion Ha; subst; left; reflexivity).
+      destruct (validate_snapshot sort_ts (c_number (ch_cache c)) l1 s true) as [l2 r2].
+      destruct r2 as [[]| |]; inversion Ha; subst; [right; eexists; reflexivity | left; reflexivity | left; reflexivity]. }
+    destruct (add_snapshot sort_ts c s) as [c' r] eqn:Ea. inversion Hs; subst w' k.
+    destruct (Hadd _ _ eq_refl) as [E|[l E]]; subst c';
+      (apply Hfin; [reflexivity | try apply chain_inv_set_snaps; exact Hc | apply dur_frame_refl]).
   - destruct (start_new_round H sort (w_dur w) c self ext ts finalized sanity) as [[d' c'] r] eqn:Est.
     inversion Hs; subst w' k. destruct r as [dummy| |].
     + apply start_ok_inv in Est.
@@ -493,10 +499,13 @@ Proof.
   { intros c' Eid Hr. eapply put_chain_forall2; try eassumption. apply same_but_order_refl. }
   destruct o as [cid s | cid self ext ts finalized sanity | cid self ext ts strict sanity].
   - unfold add_snapshot in Hs.
-    destruct (validate_snapshot sort_ts (c_number (ch_cache c)) (c_snaps (ch_cache c)) s true) as [l r] eqn:Hv.
-    destruct r as [[]| |]; inversion Hs; subst w'. cbn [w_dur w_chains]. split; [reflexivity|].
-    apply Hfin; [reflexivity|]. exists l. split; [|reflexivity].
-    destruct (validate_perm sort_ts HT _ _ _ _ _ _ Hv) as [[Er _]|[_ HP]]; [discriminate | exact HP].
+    destruct (validate_snapshot sort_ts (c_number (ch_cache c)) (c_snaps (ch_cache c)) s false) as [l1 r1] eqn:Hv.
+    destruct r1 as [[]| |].
+    + destruct (validate_snapshot sort_ts (c_number (ch_cache c)) l1 s true) as [l2 r2].
+      destruct r2 as [[]| |]; inversion Hs.
+    + inversion Hs; subst w'. cbn [w_dur w_chains]. split; [reflexivity|].
+      apply Hfin; [reflexivity | apply same_but_order_refl].
+    + inversion Hs.
   - destruct (start_new_round H sort (w_dur w) c self ext ts finalized sanity) as [[d' c'] r] eqn:Est.
     destruct r as [[|]| |]; inversion Hs; subst w'. cbn [w_dur w_chains].
     apply start_err_inv in Est. destruct Est as [Ed [Ec|Ec]]; subst d' c'; (split; [reflexivity|]).
